@@ -90,7 +90,7 @@ theorem sec_fold (sec : WFrame → List Item)
 
 def txItems (f : WFrame) : List Item := if f.moreSenders.isEmpty then [] else [.tx ⟨f.bo.id, f.senders⟩]
 def cmItems (f : WFrame) : List Item := match f.comment with | some c => [.cm (.bo f.bo.id) c] | none => []
-def sigCmItems (f : WFrame) : List Item := f.sigs.filterMap fun s => s.comment.map fun c => .cm (.sg f.bo.id s.sg.name) c
+def sigCmItems (f : WFrame) : List Item := f.sigs.filterMap fun s => s.comment.map fun c => Item.cm (.sg f.bo.id s.sg.name) c
 
 theorem txItems_eq (f : WFrame) : f.txStmts.filterMap FileStmt.toItem = txItems f := by
   unfold WFrame.txStmts txItems; split <;> rfl
@@ -129,8 +129,10 @@ theorem cm_section (f : WFrame) (a : RFrame) (hk : keyOfCompound f.bo.id = some 
     simp only [List.foldl_cons, List.foldl_nil]
     rw [itemUpd_hit _ f.bo.id _ a rfl hk]
 
-def fullSig (s : WSig) : RSig := { sg := rereadSg s.sg, comment := s.comment }
+/-- the stages a signal goes through: as the frame section builds it, with its comment, with its value table -/
 def plainSig (s : WSig) : RSig := { sg := rereadSg s.sg }
+def cmSig (s : WSig) : RSig := { sg := rereadSg s.sg, comment := s.comment }
+def fullSig (s : WSig) : RSig := { sg := rereadSg s.sg, comment := s.comment, values := s.values }
 
 theorem modifyAt_mid {α} (l1 l2 : List α) (x : α) (g : α → α) : modifyAt (l1 ++ x :: l2) l1.length g = l1 ++ g x :: l2 := by
   induction l1 with
@@ -144,49 +146,86 @@ theorem namesUnique_of (a : RFrame) (names : List Str) (h : a.sigs.map (·.sg.na
   have : (a.sigs.map (·.sg.name)).Pairwise (· ≠ ·) := by rw [h]; exact hnd
   rwa [List.pairwise_map] at this
 
-/-- the comments of the signals of one frame -/
-theorem sigcm_fold (n : Nat) (todo done : List WSig) (a : RFrame) (hk : keyOfCompound n = some a.key)
-    (hs : a.sigs = done.map fullSig ++ todo.map plainSig) (hnd : ((done ++ todo).map (·.sg.name)).Nodup) :
-    (todo.filterMap fun s => s.comment.map fun c => Item.cm (.sg n s.sg.name) c).foldl (fun acc it => itemUpd it acc) a =
-      { a with sigs := (done ++ todo).map fullSig } := by
+/-- one section of statements about the signals of one frame (comments, value tables): every signal that has a statement goes from its
+stage `pre` to its stage `post`, found by its name -/
+theorem sigsec_fold (n : Nat) (mk : WSig → Option Item) (g : WSig → RSig → RSig) (pre post : WSig → RSig)
+    (hmk : ∀ s it, mk s = some it → itemFrameUpd it = some (n, modSigByName s.sg.name (g s)))
+    (hnone : ∀ s, mk s = none → post s = pre s) (P : WSig → Prop) (hsome : ∀ s it, P s → mk s = some it → g s (pre s) = post s)
+    (hpre : ∀ s, (pre s).sg.name = s.sg.name) (hpost : ∀ s, (post s).sg.name = s.sg.name)
+    (todo done : List WSig) (hP : ∀ s ∈ todo, P s) (a : RFrame) (hk : keyOfCompound n = some a.key)
+    (hs : a.sigs = done.map post ++ todo.map pre) (hnd : ((done ++ todo).map (·.sg.name)).Nodup) :
+    (todo.filterMap mk).foldl (fun acc it => itemUpd it acc) a = { a with sigs := (done ++ todo).map post } := by
   induction todo generalizing done a with
   | nil =>
     simp only [List.filterMap_nil, List.foldl_nil, List.append_nil]
     simp only [List.map_nil, List.append_nil] at hs
     cases a; simp_all
   | cons s rest ih =>
-    cases hc : s.comment with
+    cases hc : mk s with
     | none =>
-      simp only [List.filterMap_cons, hc, Option.map_none]
-      have hfp : fullSig s = plainSig s := by simp [fullSig, plainSig, hc]
-      have := ih (done ++ [s]) a hk (by rw [hs]; simp [hfp]) (by simpa using hnd)
+      simp only [List.filterMap_cons, hc]
+      have := ih (done ++ [s]) (fun x hx => hP x (List.mem_cons_of_mem _ hx)) a hk (by rw [hs]; simp [hnone s hc]) (by simpa using hnd)
       simpa using this
-    | some c =>
-      simp only [List.filterMap_cons, hc, Option.map_some, List.foldl_cons]
-      rw [itemUpd_hit _ n _ a rfl hk]
+    | some it =>
+      simp only [List.filterMap_cons, hc, List.foldl_cons]
+      rw [itemUpd_hit _ n _ a (hmk s it hc) hk]
       have hnames : a.sigs.map (·.sg.name) = (done ++ s :: rest).map (·.sg.name) := by
         rw [hs]
-        have e1 : ∀ l : List WSig, l.map (fun x => (fullSig x).sg.name) = l.map (·.sg.name) := fun l => rfl
-        have e2 : ∀ l : List WSig, l.map (fun x => (plainSig x).sg.name) = l.map (·.sg.name) := fun l => rfl
+        have e1 : ∀ l : List WSig, l.map (fun x => (post x).sg.name) = l.map (·.sg.name) := fun l => List.map_congr_left (fun x _ => hpost x)
+        have e2 : ∀ l : List WSig, l.map (fun x => (pre x).sg.name) = l.map (·.sg.name) := fun l => List.map_congr_left (fun x _ => hpre x)
         simp only [List.map_append, List.map_map, List.map_cons, Function.comp_def]
-        rw [e1, e2]; rfl
-      have hget : a.sigs[done.length]? = some (plainSig s) := by
+        rw [e1, e2, hpre]
+      have hget : a.sigs[done.length]? = some (pre s) := by
         rw [hs]; simp
       have hidx : sigIdx a s.sg.name = some done.length := by
-        have := lookup_signal a (namesUnique_of a _ hnames hnd) done.length (plainSig s) hget
-        simpa [plainSig, rereadSg_name] using this
-      have hmod : modSigByName s.sg.name (fun x => { x with comment := some c }) a =
-          { a with sigs := (done ++ [s]).map fullSig ++ rest.map plainSig } := by
+        have := lookup_signal a (namesUnique_of a _ hnames hnd) done.length (pre s) hget
+        rwa [hpre] at this
+      have hmod : modSigByName s.sg.name (g s) a = { a with sigs := (done ++ [s]).map post ++ rest.map pre } := by
         unfold modSigByName
         rw [hidx]
         simp only [RFrame.modSig, hs]
-        have e : done.map fullSig ++ (s :: rest).map plainSig = done.map fullSig ++ plainSig s :: rest.map plainSig := by simp
-        have hl : done.length = (done.map fullSig).length := by simp
-        rw [e, hl, modifyAt_mid]
-        simp [fullSig, plainSig, hc]
+        have e : done.map post ++ (s :: rest).map pre = done.map post ++ pre s :: rest.map pre := by simp
+        have hl : done.length = (done.map post).length := by simp
+        rw [e, hl, modifyAt_mid, hsome s it (hP s (by simp)) hc]
+        simp
       rw [hmod]
-      have := ih (done ++ [s]) { a with sigs := (done ++ [s]).map fullSig ++ rest.map plainSig } hk rfl (by simpa using hnd)
+      have := ih (done ++ [s]) (fun x hx => hP x (List.mem_cons_of_mem _ hx))
+        { a with sigs := (done ++ [s]).map post ++ rest.map pre } hk rfl (by simpa using hnd)
       simpa using this
+
+def sigCmItem (n : Nat) (s : WSig) : Option Item := s.comment.map fun c => Item.cm (.sg n s.sg.name) c
+def valItem (n : Nat) (s : WSig) : Option Item := if s.values.isEmpty then none else some (.val ⟨n, s.sg.name, s.values⟩)
+def valItems (f : WFrame) : List Item := f.sigs.filterMap (valItem f.bo.id)
+
+theorem valItems_eq (f : WFrame) : f.valStmts.filterMap FileStmt.toItem = valItems f := by
+  unfold WFrame.valStmts valItems
+  rw [List.filterMap_filterMap]
+  congr 1
+  funext s
+  simp only [valItem]
+  split <;> rfl
+
+/-- writing a table entry by entry into an empty dictionary gives the table, when its keys are pairwise different -/
+theorem assocSet_fold (es acc : List (Int × Str)) (h : ((acc ++ es).map (·.1)).Nodup) :
+    es.foldl (fun acc (x : Int × Str) => match x with | (k, t) => assocSet acc k t) acc = acc ++ es := by
+  induction es generalizing acc with
+  | nil => simp
+  | cons e es ih =>
+    simp only [List.foldl_cons]
+    have hnew : assocSet acc e.1 e.2 = acc ++ [e] := by
+      have hnot : ∀ x ∈ acc, x.1 ≠ e.1 := by
+        intro x hx hxe
+        simp only [List.map_append, List.map_cons, List.nodup_append, List.mem_map, List.mem_cons] at h
+        exact h.2.2 x.1 ⟨x, hx, rfl⟩ e.1 (Or.inl rfl) hxe
+      clear h ih
+      induction acc with
+      | nil => rfl
+      | cons y r ihr =>
+        have hy : (y.1 == e.1) = false := by simpa using hnot y (by simp)
+        simp only [assocSet, hy, Bool.false_eq_true, if_false, List.cons_append, List.cons.injEq, true_and]
+        exact ihr (fun x hx => hnot x (List.mem_cons_of_mem _ hx))
+    rw [hnew, ih (acc ++ [e]) (by simpa using h)]
+    simp
 
 theorem txItems_num (f : WFrame) (it : Item) (h : it ∈ txItems f) : ∃ g, itemFrameUpd it = some (f.bo.id, g) := by
   unfold txItems at h
@@ -210,20 +249,30 @@ theorem sigCmItems_num (f : WFrame) (it : Item) (h : it ∈ sigCmItems f) : ∃ 
 theorem wf_unpack {f : WFrame} {k : Nat × Bool} (h : f.wf k = true) :
     wfBlock f.block = true ∧ boKey f.bo = some k ∧ keyOfCompound f.bo.id = some k ∧ (∀ e ∈ f.senders, isIdent e = true) ∧ f.senders.Nodup ∧
     (∀ c, f.comment = some c → wfComment c = true) ∧ (∀ s ∈ f.sigs, ∀ c, s.comment = some c → wfComment c = true) ∧
-    (f.sigs.map (·.sg.name)).Nodup := by
+    (f.sigs.map (·.sg.name)).Nodup ∧
+    (∀ s ∈ f.sigs, (∀ e ∈ s.values, wfText e.2 = true) ∧ (s.values.map (·.1)).Nodup) := by
   simp only [WFrame.wf, Bool.and_eq_true, beq_iff_eq, List.all_eq_true, decide_eq_true_eq] at h
-  obtain ⟨⟨⟨⟨⟨⟨⟨h1, h2⟩, h3⟩, h4⟩, h5⟩, h6⟩, h7⟩, h8⟩ := h
-  refine ⟨h1, h2, h3, h4, h5, ?_, ?_, h8⟩
+  obtain ⟨⟨⟨⟨⟨⟨⟨⟨h1, h2⟩, h3⟩, h4⟩, h5⟩, h6⟩, h7⟩, h9⟩, h8⟩ := h
+  refine ⟨h1, h2, h3, h4, h5, ?_, ?_, h8, h9⟩
   · intro c hc; rw [hc] at h6; exact h6
   · intro s hs c hc; have := h7 s hs; rw [hc] at this; exact this
 
-/-- what a frame of the written frame section becomes under the statements of the three following sections -/
+theorem valItems_num (f : WFrame) (it : Item) (h : it ∈ valItems f) : ∃ g, itemFrameUpd it = some (f.bo.id, g) := by
+  unfold valItems at h
+  obtain ⟨s, _, hs⟩ := List.mem_filterMap.mp h
+  unfold valItem at hs
+  split at hs
+  · simp at hs
+  · simp only [Option.some.injEq] at hs; subst hs; exact ⟨_, rfl⟩
+
+/-- what a frame of the written frame section becomes under the statements of the four following sections -/
 theorem per_frame (ps : List (WFrame × (Nat × Bool))) (hwf : ∀ p ∈ ps, p.1.wf p.2 = true) (hdist : ps.Pairwise fun p q => p.2 ≠ q.2)
     (p : WFrame × (Nat × Bool)) (hp : p ∈ ps) :
-    ((ps.flatMap fun q => txItems q.1) ++ (ps.flatMap fun q => cmItems q.1) ++ (ps.flatMap fun q => sigCmItems q.1)).foldl
+    ((ps.flatMap fun q => txItems q.1) ++ (ps.flatMap fun q => cmItems q.1) ++ (ps.flatMap fun q => sigCmItems q.1) ++
+      (ps.flatMap fun q => valItems q.1)).foldl
       (fun acc it => itemUpd it acc) (frameOfBlock p.1.block p.2) = p.1.expect p.2 := by
   obtain ⟨f, k⟩ := p
-  obtain ⟨_, _, hnum, _, hnd, _, _, hnames⟩ := wf_unpack (hwf (f, k) hp)
+  obtain ⟨_, _, hnum, _, hnd, _, _, hnames, hvals⟩ := wf_unpack (hwf (f, k) hp)
   have hnumAll : ∀ q ∈ ps, keyOfCompound q.1.bo.id = some q.2 := fun q hq => (wf_unpack (hwf q hq)).2.2.1
   simp only [List.foldl_append]
   rw [sec_fold txItems txItems_num ps hnumAll hdist (f, k) hp _ rfl]
@@ -231,10 +280,38 @@ theorem per_frame (ps : List (WFrame × (Nat × Bool))) (hwf : ∀ p ∈ ps, p.1
   rw [sec_fold cmItems cmItems_num ps hnumAll hdist (f, k) hp _ rfl]
   rw [cm_section f _ hnum rfl]
   rw [sec_fold sigCmItems sigCmItems_num ps hnumAll hdist (f, k) hp _ rfl]
-  have := sigcm_fold f.bo.id f.sigs [] { (frameOfBlock f.block k) with transmitters := f.senders, comment := f.comment } hnum
+  have h3 := sigsec_fold f.bo.id (sigCmItem f.bo.id) (fun s x => { x with comment := s.comment }) plainSig cmSig
+    (by intro s it h; unfold sigCmItem at h; cases hc : s.comment with
+        | none => rw [hc] at h; simp at h
+        | some c => rw [hc] at h; simp only [Option.map_some, Option.some.injEq] at h; subst h; rfl)
+    (by intro s h; unfold sigCmItem at h; cases hc : s.comment with
+        | none => simp [cmSig, plainSig, hc]
+        | some c => rw [hc] at h; simp at h)
+    (fun _ => True) (by intro s it _ _; rfl) (fun _ => rfl) (fun _ => rfl)
+    f.sigs [] (fun _ _ => trivial) { (frameOfBlock f.block k) with transmitters := f.senders, comment := f.comment } hnum
     (by simp [frameOfBlock, sigsOf, WFrame.block, plainSig]) (by simpa using hnames)
-  unfold sigCmItems
-  rw [this]
+  have e3 : sigCmItems f = f.sigs.filterMap (sigCmItem f.bo.id) := rfl
+  rw [e3, h3]
+  rw [sec_fold valItems valItems_num ps hnumAll hdist (f, k) hp _ rfl]
+  have h4 := sigsec_fold f.bo.id (valItem f.bo.id)
+    (fun s x => { x with values := s.values.foldl (fun acc (x : Int × Str) => match x with | (k, t) => assocSet acc k t) x.values }) cmSig fullSig
+    (by intro s it h; unfold valItem at h; split at h
+        · simp at h
+        · simp only [Option.some.injEq] at h; subst h; rfl)
+    (by intro s h; unfold valItem at h; split at h
+        · rename_i he; simp [fullSig, cmSig, List.isEmpty_iff.mp he]
+        · simp at h)
+    (fun s => (s.values.map (·.1)).Nodup)
+    (by intro s it hP _
+        simp only [cmSig, fullSig]
+        rw [assocSet_fold s.values [] (by simpa using hP)]
+        simp)
+    (fun _ => rfl) (fun _ => rfl)
+    f.sigs [] (fun s hs => (hvals s hs).2)
+    { (frameOfBlock f.block k) with transmitters := f.senders, comment := f.comment, sigs := ([] ++ f.sigs).map cmSig } hnum
+    (by simp) (by simpa using hnames)
+  unfold valItems
+  rw [h4]
   simp [WFrame.expect, frameOfBlock, fullSig, WFrame.block, List.any_map, Function.comp_def]
 
 theorem filterMap_flatMap {α β γ} (l : List α) (f : α → List β) (g : β → Option γ) :
@@ -355,11 +432,28 @@ theorem sigcm_static (f : WFrame) (k : Nat × Bool) (hwf : f.wf k = true) (keys 
       exact (wfSg_unpack this).1
     exact ⟨hname, hsc w hw c hc, rfl, f.bo.id, k, Or.inr ⟨_, rfl⟩, hnum, hk⟩
 
+theorem val_static (f : WFrame) (k : Nat × Bool) (hwf : f.wf k = true) (keys : List (Nat × Bool)) :
+    ∀ s ∈ f.valStmts, staticOk keys s := by
+  intro s hs
+  unfold WFrame.valStmts at hs
+  obtain ⟨hblk, _, _, _, _, _, _, _, hvals⟩ := wf_unpack hwf
+  obtain ⟨w, hw, hsw⟩ := List.mem_filterMap.mp hs
+  split at hsw
+  · simp at hsw
+  · rename_i hne
+    simp only [Option.some.injEq] at hsw; subst hsw
+    have hname : isIdent w.sg.name = true := by
+      have := (wfBlock_unpack hblk).2 w.sg (by simp [WFrame.block]; exact ⟨w, hw, rfl⟩)
+      exact (wfSg_unpack this).1
+    refine ⟨?_, _, rfl, rfl⟩
+    simp only [Stmt.wf, wfVal, Bool.and_eq_true, List.all_eq_true, Bool.not_eq_true']
+    exact ⟨⟨hname, fun e he => (hvals w hw).1 e he⟩, by simpa using hne⟩
+
 /-- **The core round trip.**  For any list of frames - any number, any number of signals, senders and comments over any number of lines -
 whose lines are well formed, whose numbers denote pairwise different identifiers and whose signal names are pairwise different within a
-frame: reading the file the core of the writer makes of them (frame section, `BO_TX_BU_` lines, frame comments, signal comments) builds
-exactly these frames - identifier, name, length, all senders in their order, the signals in their order with their comments, the frame's
-comment - and leaves no comment open. -/
+frame: reading the file the core of the writer makes of them (frame section, `BO_TX_BU_` lines, frame comments, signal comments, `VAL_` lines) builds
+exactly these frames - identifier, name, length, all senders in their order, the signals in their order with their comments and value
+tables, the frame's comment - and leaves no comment open. -/
 theorem roundtrip_core (ps : List (WFrame × (Nat × Bool))) (hwf : ∀ p ∈ ps, p.1.wf p.2 = true)
     (hdist : ps.Pairwise fun p q => p.2 ≠ q.2) :
     (readFile (writeCore (ps.map (·.1)))).frames = ps.map (fun p => p.1.expect p.2) ∧
@@ -388,17 +482,18 @@ theorem roundtrip_core (ps : List (WFrame × (Nat × Bool))) (hwf : ∀ p ∈ ps
     rwa [List.pairwise_map] at this
   -- every statement of the three sections can be read
   have hstatic : ∀ s ∈ ((ps.map (·.1)).flatMap WFrame.txStmts ++ (ps.map (·.1)).flatMap WFrame.cmStmts ++
-      (ps.map (·.1)).flatMap WFrame.sigCmStmts), staticOk (mA.frames.map (·.key)) s := by
+      (ps.map (·.1)).flatMap WFrame.sigCmStmts ++ (ps.map (·.1)).flatMap WFrame.valStmts), staticOk (mA.frames.map (·.key)) s := by
     intro s hs
     rw [hAkeys]
     simp only [List.mem_append, List.mem_flatMap, List.mem_map] at hs
-    rcases hs with (⟨f, ⟨p, hp, rfl⟩, hsf⟩ | ⟨f, ⟨p, hp, rfl⟩, hsf⟩) | ⟨f, ⟨p, hp, rfl⟩, hsf⟩
+    rcases hs with ((⟨f, ⟨p, hp, rfl⟩, hsf⟩ | ⟨f, ⟨p, hp, rfl⟩, hsf⟩) | ⟨f, ⟨p, hp, rfl⟩, hsf⟩) | ⟨f, ⟨p, hp, rfl⟩, hsf⟩
     · exact tx_static p.1 p.2 (hwf p hp) _ s hsf
     · exact cm_static p.1 p.2 (hwf p hp) _ (List.mem_map.mpr ⟨p, hp, rfl⟩) s hsf
     · exact sigcm_static p.1 p.2 (hwf p hp) _ (List.mem_map.mpr ⟨p, hp, rfl⟩) s hsf
+    · exact val_static p.1 p.2 (hwf p hp) _ s hsf
   have hok := okFile_static _ mA huA hstatic
   rw [read_file _ mA hAp hok, apply_eq_items]
-  simp only [List.filterMap_append, filterMap_flatMap, List.flatMap_map, txItems_eq, cmItems_eq, sigCmItems_eq]
+  simp only [List.filterMap_append, filterMap_flatMap, List.flatMap_map, txItems_eq, cmItems_eq, sigCmItems_eq, valItems_eq]
   constructor
   · rw [frames_after_items _ mA huA]
     · rw [hAf, List.map_map]
@@ -407,10 +502,11 @@ theorem roundtrip_core (ps : List (WFrame × (Nat × Bool))) (hwf : ∀ p ∈ ps
       exact per_frame ps hwf hdist p hp
     · intro it hit
       simp only [List.mem_append, List.mem_flatMap] at hit
-      rcases hit with (⟨p, _, h⟩ | ⟨p, _, h⟩) | ⟨p, _, h⟩
+      rcases hit with ((⟨p, _, h⟩ | ⟨p, _, h⟩) | ⟨p, _, h⟩) | ⟨p, _, h⟩
       · obtain ⟨g, hg⟩ := txItems_num p.1 it h; rw [hg]; rfl
       · obtain ⟨g, hg⟩ := cmItems_num p.1 it h; rw [hg]; rfl
       · obtain ⟨g, hg⟩ := sigCmItems_num p.1 it h; rw [hg]; rfl
+      · obtain ⟨g, hg⟩ := valItems_num p.1 it h; rw [hg]; rfl
   · -- no comment stays open: every item is a complete comment or a sender statement
     have : ∀ (its : List Item) (m : RMatrix), m.pending = none → (∀ it ∈ its, ∀ hd first, it ≠ .cmOpen hd first) →
         (its.foldl applyItem m).pending = none := by
@@ -425,9 +521,10 @@ theorem roundtrip_core (ps : List (WFrame × (Nat × Bool))) (hwf : ∀ p ∈ ps
     intro it hit hd first e
     subst e
     simp only [List.mem_append, List.mem_flatMap] at hit
-    rcases hit with (⟨p, _, h⟩ | ⟨p, _, h⟩) | ⟨p, _, h⟩
+    rcases hit with ((⟨p, _, h⟩ | ⟨p, _, h⟩) | ⟨p, _, h⟩) | ⟨p, _, h⟩
     · obtain ⟨g, hg⟩ := txItems_num p.1 _ h; simp [itemFrameUpd] at hg
     · obtain ⟨g, hg⟩ := cmItems_num p.1 _ h; simp [itemFrameUpd] at hg
     · obtain ⟨g, hg⟩ := sigCmItems_num p.1 _ h; simp [itemFrameUpd] at hg
+    · obtain ⟨g, hg⟩ := valItems_num p.1 _ h; simp [itemFrameUpd] at hg
 
 end CanVerif.Dbc.FileProofs
